@@ -114,9 +114,22 @@ def mergeWs : List Node → List Node
   | [] => []
   | k :: ks => mergeWsLoop [] k (isWsMtext k) ks
 
-/-- the lift of a single (already cleaned) child into its `mrow` / `mstyle` / `mpadded`: the child's name and content with both sets of attributes -/
+def globalAttrs : List Str := [s "class", s "dir", s "displaystyle", s "id", s "mathbackground", s "mathcolor", s "mathsize", s "mathvariant", s "nonce",
+  s "scriptlevel", s "style", s "tabindex", s "intent", s "arg"]
+
+/-- `add_attrs` keeps these attributes of the element that takes the child in: `data-*`, the global ones, `on*` -/
+def keepsAttr (k : Str) : Bool :=
+  (k.take 5 = s "data-") || globalAttrs.contains k || (k.take 2 = s "on")
+
+/-- `add_attrs(parent, child.attributes())`: the parent's non-global attributes go, then every attribute of the child is set
+(a name both have takes the child's value) -/
+def addAttrs (attrs a : List (Str × Str)) : List (Str × Str) :=
+  a ++ (attrs.filter fun x => keepsAttr x.1 && !(a.any fun y => y.1 = x.1))
+
+/-- the lift of a single (already cleaned) child into its `mrow` / `mstyle` / `mpadded`: the child's name and content, the
+attributes merged by `add_attrs` -/
 def lift (attrs : List (Str × Str)) : Node → Node
-  | .elem n a kids => .elem n (attrs ++ a) kids
+  | .elem n a kids => .elem n (addAttrs attrs a) kids
   | .text t => .text t
 
 def isBlankMtext : Node → Bool
